@@ -106,6 +106,17 @@ def corner_specs():
                 "dt": 0.01, "steps": 2, "pts": [(0.0, -5.05, 0.0), (1.01, -4.04, 1.01)],
                 "what": "a particle exactly at the centre of a (root) cell whose child centre c+w/4 is rounded is placed by `p.y < c.y` in a child that "
                         "fabs(p.y-c')>w'/2 declares it outside of; the re-insertion descends into the leaf being vacated"})
+    # fixed regression (/repo a7d12d9): removing the last particle with a tree left its leaf behind (N==1 shortcut)
+    out.append({"kind": "corner", "key": "tree_stale_leaf_after_last_particle_removed", "rs": 10.0, "n": [2, 1, 1], "boundary": "none", "gravity": "tree",
+                "dt": 0.01, "steps": 0, "pts": [],
+                "ops": [["add", 1.0, -2.0, 0.0, 0.0], ["step"], ["remove", 0], ["add", 1.0, 2.0, 0.0, 0.0], ["add", 0.0, 4.5, 0.0, 0.0], ["step"]],
+                "what": "last particle removed while a tree exists, then two particles added: every particle must be in exactly one leaf"})
+    for nrem, rest in [(2, 3), (3, 1)]:      # variants: remove ALL particles one by one, re-populate
+        ops = [["add", 1.0, -2.0 + 0.5 * i, 0.3 * i, 0.1 * i] for i in range(nrem)] + [["step"]] + [["remove", i] for i in range(nrem)] + \
+              [["add", 1.0, 1.0 + 0.7 * i, -0.2 * i, 0.05 * i] for i in range(rest)] + [["step"], ["step"]]
+        out.append({"kind": "corner", "key": "tree_stale_leaf_after_last_particle_removed", "rs": 10.0, "n": [2, 1, 1], "boundary": "none", "gravity": "tree",
+                    "dt": 0.01, "steps": 0, "pts": [], "ops": ops,
+                    "what": "all %d particles removed one by one while a tree exists, then %d added" % (nrem, rest)})
     # controls: the same situations where the code is fine (must pass)
     out.append({"kind": "corner", "key": "tree:corner_control", "rs": 1.0, "n": [1, 1, 1], "boundary": "periodic", "gravity": "tree", "dt": 0.01, "steps": 2,
                 "pts": [(0.5, 0.1, 0.2), (0.3, 0.3, 0.3), (-0.2, 0.1, 0.1), (0.0, 0.0, 0.0), (0.25, 0.25, 0.25), (-0.5, -0.5, -0.5)],
